@@ -48,6 +48,7 @@ type c14Case struct {
 	CloseAtEnd  bool      `json:"close_after_end_of_body"` // the application closes the body after it has seen EOF / an error (defer Body.Close())
 	CloseFails  bool      `json:"inner_close_fails"`
 	HandlerPanics bool    `json:"handler_panics_after_its_writes,omitempty"`
+	EarlyStatus int       `json:"status_written_before_the_request_is_read,omitempty"`
 	Named       bool      `json:"has_test_name"`
 	Chunks      []int     `json:"chunks"`
 }
@@ -279,6 +280,11 @@ func c14Run(t *testing.T, tape *simrt.Tape, o simwork.Opts) *simwork.Result {
 	case 5:
 		cs.ContentType, cs.EncHeader = []string{"application/proto", "application/json", ""}[tape.Choose(3, "unaryct")], "Content-Encoding"
 	}
+	if proto < 4 && tape.Bool(1, 6, "custom-codec") {
+		// the sub-format after '+' names the codec, which may be any registered one;
+		// the enveloping is the protocol's, whatever the codec
+		cs.ContentType = []string{"application/connect+msgpack", "application/connect+flatbuffers", "application/grpc+flatbuffers", "application/grpc-web+thrift"}[proto]
+	}
 	cs.Encoding = []string{"", "identity", "gzip", "br", "zstd", "deflate", "snappy", "GZIP", "foo"}[tape.Choose(9, "enc")]
 	isStream := proto != 5
 	if proto != 5 && tape.Bool(1, 12, "contentenc") {
@@ -341,6 +347,9 @@ func c14Run(t *testing.T, tape *simrt.Tape, o simwork.Opts) *simwork.Result {
 	}
 	if cs.Side == "server-response" {
 		cs.HandlerPanics = tape.Bool(1, 6, "handler-panics")
+	}
+	if cs.Side == "server-request" && tape.Bool(1, 3, "early-status") {
+		cs.EarlyStatus = []int{200, 204, 304, 500}[tape.Choose(4, "early-status-code")]
 	}
 	res.Faults["end:"+cs.End]++
 	var bounds []int
@@ -466,9 +475,18 @@ func c14Run(t *testing.T, tape *simrt.Tape, o simwork.Opts) *simwork.Result {
 		}
 		h := TracingHandler(http.HandlerFunc(func(w http.ResponseWriter, r *http.Request) {
 			seenReqHdr, seenReqLen = r.Header.Clone(), r.ContentLength
+			if cs.EarlyStatus != 0 {
+				// the handler answers before it reads the request (also with a status
+				// that allows no response body): the request body is traced all the same
+				w.Header().Set("Content-Type", "application/proto")
+				w.WriteHeader(cs.EarlyStatus)
+				res.Probes["status-before-request-body"]++
+			}
 			appLog = consume(r.Body, cs.CloseAfter)
-			w.Header().Set("Content-Type", "application/proto")
-			w.WriteHeader(200)
+			if cs.EarlyStatus == 0 {
+				w.Header().Set("Content-Type", "application/proto")
+				w.WriteHeader(200)
+			}
 		}), sink)
 		rw := &scriptedRW{hdr: http.Header{}, w: simio.NewWriter()}
 		sreq := mkReq(inner, headers)
